@@ -34,6 +34,21 @@ class Unsupported(Exception):
     pass
 
 
+def _relocate(nodes, at: ast.AST):
+    """code copied from a helper takes the *line* of the call it replaces, so rules that order statements by line see it where it now
+    executes; the original position is kept in `_tpos` for type look-ups (sa/typed.py) and is what diagnostics of sub-expressions lose"""
+    for root in nodes:
+        for n in ast.walk(root):
+            if getattr(n, "lineno", None) is None:
+                continue
+            if not hasattr(n, "_tpos"):
+                n._tpos = (n.lineno, n.col_offset, getattr(n, "end_lineno", None), getattr(n, "end_col_offset", None))  # type: ignore[attr-defined]
+            n.lineno = at.lineno
+            if getattr(n, "end_lineno", None) is not None:
+                n.end_lineno = getattr(at, "end_lineno", at.lineno) or at.lineno
+    return nodes
+
+
 def _has_yield(fn: ast.FunctionDef) -> bool:
     return any(isinstance(n, (ast.Yield, ast.YieldFrom)) for n in _walk_no_defs(fn))
 
@@ -246,6 +261,34 @@ def _lower_returns(stmts: List[ast.stmt], emit, k: Optional[List[ast.stmt]] = No
                           orelse=block(s.orelse) if s.orelse else [], finalbody=[])
             out.append(ast.copy_location(new, s))
             return out, False
+        if isinstance(s, (ast.For, ast.While)) and not s.orelse:
+            # `return E` inside a loop leaves the loop and the helper: emit(E) + break; what followed the loop runs only when the loop
+            # finishes normally, i.e. as the loop's else-branch.  Needs: no break of the helper's own (it would skip the else-branch)
+            # and no return below a nested loop / try / with (break would not leave far enough)
+            def in_loop(block: List[ast.stmt]) -> List[ast.stmt]:
+                res: List[ast.stmt] = []
+                for st in block:
+                    if isinstance(st, ast.Return):
+                        res.extend(emit(st.value, st))
+                        res.append(ast.copy_location(ast.Break(), st))
+                        return res
+                    if not _contains_return([st]):
+                        if any(isinstance(n, ast.Break) for n in [st, *_walk_no_defs(st)]) and not isinstance(st, (ast.For, ast.While)):
+                            raise Unsupported("helper loop has its own break next to a return")
+                        res.append(st)
+                        continue
+                    if isinstance(st, ast.If):
+                        res.append(ast.copy_location(ast.If(test=st.test, body=in_loop(st.body) or [ast.copy_location(ast.Pass(), st)], orelse=in_loop(st.orelse)), st))
+                        continue
+                    raise Unsupported(f"return inside {type(st).__name__} inside a loop")
+                return res
+            rest = stmts[i + 1:]
+            kk, _kr = _lower_returns(rest, emit, k)
+            new_loop = acopy(s)
+            new_loop.body = _merge_tail_breaks(in_loop(s.body))
+            new_loop.orelse = [x for x in drop_identities(kk) if not isinstance(x, ast.Pass)]
+            out.append(new_loop)
+            return out, False
         raise Unsupported(f"return inside {type(s).__name__}")
     out.extend(k)
     return out, _never_falls(out)
@@ -260,6 +303,29 @@ def _never_falls(stmts: List[ast.stmt]) -> bool:
     if isinstance(s, ast.If) and s.orelse:
         return _never_falls(s.body) and _never_falls(s.orelse)
     return False
+
+
+def _merge_tail_breaks(block: List[ast.stmt]) -> List[ast.stmt]:
+    """`if c: A; break` followed by `B; break` (what lowering `if c: return a` / `return b` gives)  ->  `if c: A else: B` / `break`"""
+    for st in block:
+        for fld in ("body", "orelse"):
+            sub = getattr(st, fld, None)
+            if isinstance(sub, list) and sub and isinstance(sub[0], ast.stmt) and not isinstance(st, (ast.For, ast.While, ast.FunctionDef)):
+                setattr(st, fld, _merge_tail_breaks(sub))
+    for i, st in enumerate(block):
+        if isinstance(st, ast.If) and not st.orelse and st.body and isinstance(st.body[-1], ast.Break) and isinstance(block[-1], ast.Break) and i < len(block) - 1:
+            rest = block[i + 1:-1]
+            if any(isinstance(n, (ast.Break, ast.Continue, ast.Return)) for r in rest for n in [r, *_walk_no_defs(r)]):
+                continue
+            if any(isinstance(n, (ast.Break, ast.Continue, ast.Return)) for r in st.body[:-1] for n in [r, *_walk_no_defs(r)]):
+                continue
+            st.body = st.body[:-1] or [ast.copy_location(ast.Pass(), st)]
+            st.orelse = rest
+            if len(st.body) == 1 and isinstance(st.body[0], ast.Pass) and st.orelse:
+                st.test = ast.copy_location(ast.UnaryOp(op=ast.Not(), operand=st.test), st.test)
+                st.body, st.orelse = st.orelse, []
+            return block[:i] + [st, block[-1]]
+    return block
 
 
 def drop_identities(stmts: List[ast.stmt]) -> List[ast.stmt]:
@@ -539,6 +605,7 @@ class Inliner:
                 if new != p:
                     rename[p] = new
                 pre.append(ast.copy_location(ast.Assign(targets=[ast.Name(id=new, ctx=ast.Store())], value=acopy(v), lineno=stmt.lineno), stmt))
+                pre[-1]._inl_temp = True  # type: ignore[attr-defined]  # argument binding introduced by the inliner (sa/normalize.py folds it back)
         for loc in sorted(assigned - set(binding)):
             if loc in caller_names and loc not in target_names and loc not in rename.values() \
                     and not dead_after(loc, getattr(self, "_frames", [([], None, False)])):
@@ -585,7 +652,7 @@ class Inliner:
             body = body + [ast.copy_location(ast.Return(value=None), stmt)]  # falling off the end returns None
         lowered, _ = _lower_returns(body, emit)
         lowered = [s for s in lowered if not isinstance(s, ast.Pass)] or [ast.copy_location(ast.Pass(), stmt)]
-        return pre + lowered
+        return _relocate(pre + lowered, stmt)
 
     @staticmethod
     def _always_returns(stmts: List[ast.stmt]) -> bool:
@@ -736,7 +803,7 @@ class Inliner:
                 new = _Subst({p: v for p, v in binding.items() if not (isinstance(v, ast.Name) and v.id == p)}, {}).visit(expr)
                 changed[0] = True
                 inl.log.append(f"{inl.modname}: substituted expression helper {c[0].name} at line {node.lineno}")
-                return ast.copy_location(new, node)
+                return _relocate([ast.copy_location(new, node)], node)[0]
 
         # only the statement's own expressions, not nested statement lists
         for fld, val in ast.iter_fields(s):
